@@ -4,6 +4,10 @@ import json, os, time
 import vf, symobs
 
 
+# Load folds over the table with a recursive function: one Java frame group per row, so big tables need a deeper stack
+TLC_ENV = {"JAVA_TOOL_OPTIONS": "-Xss256m"}
+
+
 def run(cmd, **kw):
     """vf.run, retried when the tool binary is momentarily unavailable (a concurrent bin/build relinking it)."""
     for attempt in range(90):
